@@ -12,6 +12,7 @@ by a concrete witness (`…_full_fails`), and proved here as `…_partial` under
 decidable exclusion.
 -/
 import CaddyModel.C20.Lemmas
+import CaddyModel.C20.Witness
 
 namespace CaddyModel.C20
 
